@@ -139,8 +139,8 @@ def expected_cum(cells, args, notes):
             out += [(m, c.period_start, c.period_end, c.evaluation_date, [c], True) for c in kept]
             continue
         if not kept:
-            notes.append("a slice lost every cell to the evaluation grid before period aggregation (IndexError)")
-            return None
+            notes.append("emptied-slice")     # the evaluation grid removed every cell: the slice contributes nothing (F24)
+            continue
         groups = {}
         for c in sorted(kept, key=lambda c: (c.period_start, c.period_end, c.evaluation_date)):
             ws, we = window_of(pr, args["period_origin"], c.period_start)
@@ -232,7 +232,11 @@ def aggregate_oracle(tcells, args, status, res, notes):
     from bermuda import Triangle
     from bermuda.utils.basis import to_cumulative, to_incremental
 
-    if not tcells or not in_domain(tcells, args):
+    if not tcells:                             # the empty triangle aggregates to the empty triangle (F22)
+        if status == "err":
+            return [f"empty triangle: raised {type(res).__name__}"]
+        return [] if res == [] else [f"empty triangle aggregated to {len(res)} cells"]
+    if not in_domain(tcells, args):
         return []
     if any(k.lower() not in S.ADDITIVE or k != k.lower() for c in tcells for k in c.values):
         return []
@@ -271,6 +275,12 @@ class AggGen(S.SummGen):
 
         r = self.r
         u = r.random()
+        if u < 0.004:                          # the empty triangle
+            ch = [None, (1, "year"), (3, "months"), (7, "days")]
+            args = {"period_resolution": r.choice(ch), "eval_resolution": r.choice(ch), "period_origin": D(1999, 12, 31),
+                    "eval_origin": D(1999, 12, 31), "summarize_premium": True}
+            return [], args, {"kind": "empty", "basis": "cum", "layout": "empty", "n_cells": 0, "slice_diff": None,
+                              "period_resolution": args["period_resolution"], "eval_resolution": args["eval_resolution"]}
         kind = "monthly" if u < 0.72 else "daily" if u < 0.88 else "straddle"
         basis = r.choice(["cum", "cum", "cum", "inc"])
         n_slices = r.choice([1, 1, 2, 3])
@@ -349,6 +359,22 @@ class AggGen(S.SummGen):
         return cells, args, info
 
 
+def directed_cases():
+    """Probes of the repaired defects F24 (a slice emptied by the evaluation grid) and F22 (empty triangle)."""
+    from bermuda import CumulativeCell, Metadata
+
+    base = {"period_origin": D(1999, 12, 31), "eval_origin": D(1999, 12, 31), "summarize_premium": True}
+    q = [CumulativeCell(D(2020, 1, 1), D(2020, 3, 31), e, {"paid_loss": v}) for e, v in ((D(2020, 3, 31), 1), (D(2020, 6, 30), 2))]
+    two = q + [CumulativeCell(D(2020, 1, 1), D(2020, 3, 31), D(2020, 12, 31), {"paid_loss": 5}, Metadata(country="US"))]
+    info = {"basis": "cum", "layout": "directed", "n_cells": 0, "slice_diff": None}
+    out = []
+    for cells, pres, eres, kind in ((q, (1, "year"), (1, "year"), "directed:F24"), (two, (1, "year"), (1, "year"), "directed:F24-two-slices"),
+                                    ([], (1, "year"), None, "directed:F22"), ([], None, (1, "quarter"), "directed:F22")):
+        out.append((cells, {**base, "period_resolution": pres, "eval_resolution": eres},
+                    {**info, "kind": kind, "period_resolution": pres, "eval_resolution": eres}))
+    return out
+
+
 def violation_data(tcells, args, fails, info=None):
     return {"op": "aggregate", "cells": S.cells_to_data(tcells), "args": args_to_data(args), "failures": fails[:5], "info": info}
 
@@ -383,28 +409,35 @@ def run(ctx):
     per_file = 85
     files, body, recs, notes = [], [], [], []
     n_fail = 0
+    directed = directed_cases()
     for idx in range(n):
-        cells, args, info = g.agg_case()
+        cells, args, info = directed[idx] if idx < len(directed) else g.agg_case()
         try:
             t, (status, res) = run_aggregate(cells, args)
         except Exception:  # noqa: BLE001
             ctx.hist("gen:invalid-triangle")
             continue
         tcells = list(t.cells)
+        n_notes = len(notes)
         fails = aggregate_oracle(tcells, args, status, res, notes)
+        if "emptied-slice" in notes[n_notes:]:
+            ctx.hist("slice-emptied-by-eval-grid")
         ctx.hist(f"kind:{info['kind']}/{info['basis']}")
         ctx.hist(f"layout:{info['layout']}")
         ctx.hist(f"pres:{info['period_resolution']}")
         ctx.hist(f"eres:{info['eval_resolution']}")
         ctx.hist("result:" + ("ok" if status == "ok" else type(res).__name__))
         ctx.count(evaluations=1)
-        if len(tcells) >= 2 or status == "err":
+        if len(tcells) >= 2 or status == "err" or not tcells:
             ctx.nontriv(("agg", S.cells_to_data(tcells), args_to_data(args)))
         if fails:
             n_fail += 1
             if n_fail <= 3:
+                fc = None
+                if status == "err" and type(res).__name__ == "IndexError" and "emptied-slice" in notes[n_notes:]:
+                    fc = {"kind": "aggregate_empty_slice_after_eval_grid"}       # F24 (fixed: suppresses nothing)
                 ctx.violation("impl-violation", f"aggregate violates C08: {fails[0]}", violation_data(tcells, args, fails, info),
-                              found_input=True)
+                              found_input=True, finding_class=fc)
         try:
             term = f"case {cargs(args)} {ccells(tcells)}\n {S.cresult(status, res)}"
         except NotRepresentable:
@@ -419,9 +452,6 @@ def run(ctx):
             body, recs = [], []
     if body:
         files.append((body, recs))
-    if notes:
-        ctx.notes.append(f"{len(notes)} cases: a slice lost every cell to the evaluation grid and period aggregation then raised "
-                         "IndexError (outside the property's quantifier; reported to the lead as an observation)")
     mism = []
     if gen_ok:
         paths = []
